@@ -1,13 +1,15 @@
 """C17 - Akamai HTTP/2 fingerprints follow the published format, incrementally too.
 
-Structural clauses decided (DESIGN.md §5 C17):
+Structural clauses decided:
  R1 tables: SettingId::from(u16) and as_u16 are mutual inverses (Unknown(id) passes through); PseudoHeader::from and
     Display give :method->m, :path->p, :authority->a, :scheme->s
  R2 selectors: first SETTINGS on stream 0; first WINDOW_UPDATE on stream 0 with the reserved bit masked; every PRIORITY
     frame (exclusive bit 0x80, dependency masked 0x7f, weight printed +1); first HEADERS on a stream > 0; `00` / `0`
-    for absent parts; no SETTINGS => no fingerprint; separators | ; : ,
+    for absent parts; no SETTINGS => no fingerprint; separators | ; : , ; the pseudo-header order examines the whole block;
+    frame splitter offsets and stream-id mask (shared with C16-R5)
  R3 incremental extractor: nothing is appended once a fingerprint exists; the preface is skipped only at offset 0;
-    the fingerprint is computed from the frames of the buffered bytes by the one-shot function
+    the fingerprint is computed over every frame received so far by the one-shot function; parsed_offset = start of the
+    parsed slice + bytes consumed; reset() restores every field
  R4 the HEADERS payload handed to HPACK honours the frame flags (shared with C16-R1)
 """
 from ..engine import cfg as C
